@@ -99,6 +99,10 @@ class AbraError(Exception):
         self.msg = msg
 
 
+class TooBig(Exception):
+    """the program builds a value too large to be worth running (dropped by proglib)"""
+
+
 class Unsupported(Exception):
     """program left the fragment the reference interpreter models (e.g. step cap)"""
 
@@ -492,7 +496,11 @@ class Interp:
             if op in ("+", "-", "*", "/", "%", "^"):
                 return arith(op, a, b)
             if op == "..":
-                return render(a) + render(b)
+                s_ = render(a) + render(b)
+                if len(s_) > 100000:
+                    # a string doubled in a loop: neither the reference nor the VM should be asked
+                    raise TooBig("string of %d bytes" % len(s_))
+                return s_
             if op == "==":
                 return veq(a, b)
             if op == "!=":
